@@ -628,14 +628,12 @@ func (h *histIn) kind() string {
 	if !h.pather {
 		return "mp.hist"
 	}
-	n := 0
+	seen := map[int64]bool{}
 	for _, d := range h.dstIAs {
-		if d == h.q {
-			n++
+		if seen[d] {
+			return "mp.pather.dupia" // an IA is listed more than once
 		}
-	}
-	if n > 1 {
-		return "mp.pather.dupia" // the server's IA is listed more than once
+		seen[d] = true
 	}
 	return "mp.pather"
 }
